@@ -464,17 +464,17 @@ func genPopular() string {
 // ---------------------------------------------------------------- run state
 
 type run struct {
-	rng     *hx.Rng
-	out     string
-	sum     *hx.Summary
-	fails   []interface{}
-	pop     []string
-	local   []string
-	wf      []string
-	derive  []string
-	srcs    map[string][]string // per case stream: JSON of the lint input
+	rng      *hx.Rng
+	out      string
+	sum      *hx.Summary
+	fails    []interface{}
+	pop      []string
+	local    []string
+	wf       []string
+	derive   []string
+	srcs     map[string][]string // per case stream: JSON of the lint input
 	distinct map[string]bool
-	others  map[string]int
+	others   map[string]int
 }
 
 func (r *run) record(stream string, files map[string]string, lint []string, only string, want []rep, res lintResult, kind string, expectOther bool) {
@@ -704,6 +704,9 @@ type inDecl struct {
 	DefValue string // the string value (for dfValue)
 	Type     string // reusable workflows: "", boolean, number, string, or an unknown word
 	NullBody bool   // `name:` with no body at all
+	// reusable workflows: `required:` is given by a ${{ }} placeholder; not known statically, hence
+	// nothing is demanded of the caller (Required points to false)
+	ReqExpr bool
 }
 
 func (d inDecl) mustSupply() bool { return d.Required != nil && *d.Required && d.Def != dfValue }
@@ -770,6 +773,10 @@ func (r *run) genDecl(name string, wf bool) inDecl {
 	if d.Required == nil && d.Def == dfAbsent && d.Type == "" && rng.Chance(1, 2) {
 		d.NullBody = true
 	}
+	if wf && !d.NullBody && rng.Chance(1, 8) {
+		f := false
+		d.Required, d.ReqExpr = &f, true
+	}
 	return d
 }
 
@@ -790,7 +797,9 @@ func declYAML(b *strings.Builder, ind string, d inDecl, action bool) {
 	}
 	b.WriteString(ind + yamlKey(d.Name) + ":\n")
 	b.WriteString(ind + "  description: d\n")
-	if d.Required != nil {
+	if d.ReqExpr {
+		b.WriteString(ind + "  required: ${{ github.event_name == 'push' }}\n")
+	} else if d.Required != nil {
 		b.WriteString(ind + "  required: " + boolText(*d.Required, d.Name) + "\n")
 	}
 	switch d.Def {
@@ -1004,6 +1013,7 @@ func (r *run) deriveAction(root, spec string, ins []inDecl, outs []string) {
 type secDecl struct {
 	Name     string
 	Required *bool
+	ReqExpr  bool // `required:` given by a placeholder (Required points to false)
 }
 
 var secPool = []string{"token", "NPM_TOKEN", "deploy-key", "Pass"}
@@ -1120,7 +1130,9 @@ func calleeYAML(ins []inDecl, secs []secDecl, outs []string) string {
 			b.WriteString("    secrets:\n")
 			for _, s := range secs {
 				b.WriteString("      " + yamlKey(s.Name) + ":\n")
-				if s.Required != nil {
+				if s.ReqExpr {
+					b.WriteString("        required: ${{ true }}\n")
+				} else if s.Required != nil {
 					b.WriteString("        required: " + boolText(*s.Required, s.Name) + "\n")
 				}
 			}
@@ -1267,6 +1279,10 @@ func (r *run) reusable(n int) {
 			default:
 				t := true
 				s.Required = &t
+			}
+			if r.rng.Chance(1, 8) {
+				f := false
+				s.Required, s.ReqExpr = &f, true
 			}
 			secs = append(secs, s)
 		}
@@ -1418,7 +1434,15 @@ func (r *run) deriveWf(root, calleePath, cy string, ins []inDecl, secs []secDecl
 	spec := "./.github/workflows/callee.yml"
 	// (1) from the file
 	mf, err := actionlint.NewLocalReusableWorkflowCache(proj, root, nil).FindMetadata(spec)
-	hx.Must(err)
+	if err != nil {
+		// (the generated callee is a workflow without diagnostics)
+		r.fails = append(r.fails, failure{
+			What:  "a reusable workflow that the workflow parser accepts cannot be read as the callee of a call: " + err.Error(),
+			Key:   "derive-workflow-file:unreadable:" + strings.Join(strings.Fields(err.Error()), " "),
+			Files: map[string]string{".github/workflows/callee.yml": cy},
+		})
+		return
+	}
 	// (2) from the AST
 	w, perrs := actionlint.Parse([]byte(cy))
 	if w == nil {
